@@ -230,7 +230,12 @@ HARNESSES = [
                               bval=BoolDom(), secs=IntDom(-10 ** 9, 10 ** 9), max_fields=Cases([2 if tier == "quick" else 12])),
             bounds="8 storable kinds x presence subsets of the 12 optional ids (<= 2 present or all 12: quick; all 4096: thorough) "
                    "x symbolic signed 32-bit ids x bool / whole-second date & duration payloads",
-            outside=["numeric payload values (C01)", "sub-second dates/durations"],
+            outside=["numeric payload values (C01)", "sub-second dates/durations (shared H01-date-us / H01-dur-us)"],
             stubs=["model stub: table_string_key returns an arbitrary 31-bit key; table_string/table_rich_text echo the key"]),
 ]
+# "the same payload": sub-second date and duration payloads through the real _to_buffer / _from_storage - harnesses shared
+# with C01 (H04b keeps to whole seconds)
+from specs import c01 as _c01   # noqa: E402
+
+HARNESSES += [h for h in _c01.HARNESSES if h.name in ("H01-date-us", "H01-dur-us")]
 PROPERTY = "C04"
